@@ -125,6 +125,166 @@ theorem exists_orthonormal_ker (E : Matrix (Fin N) (Fin r) ℂ) (hn : n + E.rank
         Matrix.mul_zero]
     exact eq_zero_of_trace_re _ (by rw [h2]; simp)
 
+/-! ### singular values of `R = pe·E Eᴴ + σ²·1` under the SVD contract -/
+
+theorem diag_gram_re_nonneg {m k : Nat} (X : Matrix (Fin m) (Fin k) ℂ) (i : Fin k) : 0 ≤ ((Xᴴ * X) i i).re := by
+  simp only [Matrix.mul_apply, conjTranspose_apply, Complex.re_sum]
+  refine Finset.sum_nonneg (fun a _ => ?_)
+  rw [Complex.star_def, mul_comm, Complex.mul_conj]
+  simp [Complex.normSq_nonneg]
+
+section svd
+variable (pe nv : ℝ) (E : Matrix (Fin N) (Fin r) ℂ) (U VH : Matrix (Fin N) (Fin N) ℂ) (S : Fin N → ℝ)
+
+/-- `Rᴴ R = R R = V (Σ²) V_H`: from the factorisation, `Uᴴ U = 1` and `R` Hermitian -/
+theorem extCov_sq_of_svd
+    (hsvd : (pe : ℂ) • (E * Eᴴ) + (nv : ℂ) • (1 : Matrix (Fin N) (Fin N) ℂ) = U * diagonal (fun i => ((S i : ℝ) : ℂ)) * VH)
+    (hU : Uᴴ * U = 1) :
+    ((pe : ℂ) • (E * Eᴴ) + (nv : ℂ) • (1 : Matrix (Fin N) (Fin N) ℂ)) * ((pe : ℂ) • (E * Eᴴ) + (nv : ℂ) • 1)
+      = VHᴴ * diagonal (fun i => (((S i) ^ 2 : ℝ) : ℂ)) * VH := by
+  set R : Matrix (Fin N) (Fin N) ℂ := (pe : ℂ) • (E * Eᴴ) + (nv : ℂ) • 1 with hR
+  set D : Matrix (Fin N) (Fin N) ℂ := diagonal (fun i => ((S i : ℝ) : ℂ)) with hD
+  have hDstar : Dᴴ = D := by
+    rw [hD, diagonal_conjTranspose]; congr 1; funext i; simp
+  have hRherm : Rᴴ = R := by
+    rw [hR]
+    simp only [conjTranspose_add, conjTranspose_smul, conjTranspose_mul, conjTranspose_conjTranspose,
+      conjTranspose_one, Complex.star_def, Complex.conj_ofReal]
+  have hDD : D * D = diagonal (fun i => (((S i) ^ 2 : ℝ) : ℂ)) := by
+    rw [hD, diagonal_mul_diagonal]; congr 1; funext i; push_cast; ring
+  calc R * R = Rᴴ * R := by rw [hRherm]
+    _ = VHᴴ * D * (Uᴴ * U) * D * VH := by
+        rw [hsvd, conjTranspose_mul, conjTranspose_mul, hDstar]; simp only [Matrix.mul_assoc]
+    _ = VHᴴ * (D * D) * VH := by rw [hU, Matrix.mul_one]; simp only [Matrix.mul_assoc]
+    _ = _ := by rw [hDD]
+
+/-- counting: at most `rank E` singular values of `R` differ from the noise variance -/
+theorem card_singular_ne_noise_le_rank (hnv : 0 ≤ nv) (hS0 : ∀ i, 0 ≤ S i)
+    (hsvd : (pe : ℂ) • (E * Eᴴ) + (nv : ℂ) • (1 : Matrix (Fin N) (Fin N) ℂ) = U * diagonal (fun i => ((S i : ℝ) : ℂ)) * VH)
+    (hU : Uᴴ * U = 1) (hV : VH * VHᴴ = 1) :
+    (Finset.univ.filter (fun i => S i ≠ nv)).card ≤ E.rank := by
+  classical
+  have hsq := extCov_sq_of_svd pe nv E U VH S hsvd hU
+  set B : Matrix (Fin N) (Fin N) ℂ := (pe : ℂ) • (E * Eᴴ) with hB
+  have hV' : VHᴴ * VH = 1 := mul_eq_one_comm.mp hV
+  -- `R R − σ⁴·1` in two ways
+  have h1 : (B + (nv : ℂ) • (1 : Matrix (Fin N) (Fin N) ℂ)) * (B + (nv : ℂ) • 1) - ((nv ^ 2 : ℝ) : ℂ) • 1
+      = E * (((pe : ℂ) • Eᴴ) * (B + ((2 * nv : ℝ) : ℂ) • 1)) := by
+    rw [← Matrix.mul_assoc, Matrix.mul_smul, ← hB]
+    simp only [add_mul, mul_add, Matrix.smul_mul, Matrix.mul_smul, Matrix.one_mul, Matrix.mul_one, smul_smul]
+    push_cast
+    module
+  have h2 : (B + (nv : ℂ) • (1 : Matrix (Fin N) (Fin N) ℂ)) * (B + (nv : ℂ) • 1) - ((nv ^ 2 : ℝ) : ℂ) • 1
+      = VHᴴ * diagonal (fun i => (((S i) ^ 2 - nv ^ 2 : ℝ) : ℂ)) * VH := by
+    rw [hsq]
+    have : diagonal (fun i => (((S i) ^ 2 - nv ^ 2 : ℝ) : ℂ))
+        = diagonal (fun i => (((S i) ^ 2 : ℝ) : ℂ)) - ((nv ^ 2 : ℝ) : ℂ) • (1 : Matrix (Fin N) (Fin N) ℂ) := by
+      ext a b
+      by_cases hab : a = b
+      · subst hab; simp
+      · simp [hab]
+    rw [this, Matrix.mul_sub, Matrix.sub_mul, Matrix.mul_smul, Matrix.mul_one, Matrix.smul_mul, hV']
+  have hdet : IsUnit VH.det := isUnit_det_of_right_inverse hV
+  have hdet' : IsUnit VHᴴ.det := isUnit_det_of_left_inverse hV
+  have hrk : (diagonal (fun i => (((S i) ^ 2 - nv ^ 2 : ℝ) : ℂ))).rank ≤ E.rank := by
+    have := rank_mul_le_left E (((pe : ℂ) • Eᴴ) * (B + ((2 * nv : ℝ) : ℂ) • 1))
+    rw [← h1, h2, rank_mul_eq_left_of_isUnit_det _ _ hdet, rank_mul_eq_right_of_isUnit_det _ _ hdet'] at this
+    exact this
+  rw [rank_diagonal, Fintype.card_subtype] at hrk
+  refine le_trans (Finset.card_le_card ?_) hrk
+  intro i hi
+  simp only [Finset.mem_filter, Finset.mem_univ, true_and] at hi ⊢
+  intro h0
+  apply hi
+  have h0' : (S i) ^ 2 - nv ^ 2 = 0 := by exact_mod_cast h0
+  have : (S i - nv) * (S i + nv) = 0 := by ring_nf; ring_nf at h0'; linarith
+  rcases mul_eq_zero.mp this with h | h
+  · linarith
+  · have := hS0 i; have hS : S i = 0 := by linarith
+    have hn0 : nv = 0 := by linarith
+    rw [hS, hn0]
+
+/-- no singular value of `R` is below the noise variance (`pe ≥ 0`: `R − σ²·1` is positive
+    semidefinite) -/
+theorem noise_le_singular (hpe : 0 ≤ pe) (hnv : 0 ≤ nv) (hS0 : ∀ i, 0 ≤ S i)
+    (hsvd : (pe : ℂ) • (E * Eᴴ) + (nv : ℂ) • (1 : Matrix (Fin N) (Fin N) ℂ) = U * diagonal (fun i => ((S i : ℝ) : ℂ)) * VH)
+    (hU : Uᴴ * U = 1) (hV : VH * VHᴴ = 1) (i : Fin N) : nv ≤ S i := by
+  have hsq := extCov_sq_of_svd pe nv E U VH S hsvd hU
+  set B : Matrix (Fin N) (Fin N) ℂ := (pe : ℂ) • (E * Eᴴ) with hB
+  have hBherm : Bᴴ = B := by
+    rw [hB]
+    simp only [conjTranspose_smul, conjTranspose_mul, conjTranspose_conjTranspose, Complex.star_def,
+      Complex.conj_ofReal]
+  -- `V_H R R V = Σ²`
+  have hdiag : VH * ((B + (nv : ℂ) • (1 : Matrix (Fin N) (Fin N) ℂ)) * (B + (nv : ℂ) • 1)) * VHᴴ
+      = diagonal (fun i => (((S i) ^ 2 : ℝ) : ℂ)) := by
+    rw [hsq]
+    calc VH * (VHᴴ * diagonal (fun i => (((S i) ^ 2 : ℝ) : ℂ)) * VH) * VHᴴ
+        = (VH * VHᴴ) * diagonal (fun i => (((S i) ^ 2 : ℝ) : ℂ)) * (VH * VHᴴ) := by simp only [Matrix.mul_assoc]
+      _ = _ := by rw [hV, Matrix.one_mul, Matrix.mul_one]
+  have hexp : VH * ((B + (nv : ℂ) • (1 : Matrix (Fin N) (Fin N) ℂ)) * (B + (nv : ℂ) • 1)) * VHᴴ
+      = (B * VHᴴ)ᴴ * (B * VHᴴ) + ((2 * nv * pe : ℝ) : ℂ) • ((Eᴴ * VHᴴ)ᴴ * (Eᴴ * VHᴴ)) + ((nv ^ 2 : ℝ) : ℂ) • 1 := by
+    have e1 : (B * VHᴴ)ᴴ * (B * VHᴴ) = VH * (B * B) * VHᴴ := by
+      rw [conjTranspose_mul, conjTranspose_conjTranspose, hBherm]; simp only [Matrix.mul_assoc]
+    have e2 : ((2 * nv * pe : ℝ) : ℂ) • ((Eᴴ * VHᴴ)ᴴ * (Eᴴ * VHᴴ)) = ((2 * nv : ℝ) : ℂ) • (VH * B * VHᴴ) := by
+      rw [conjTranspose_mul, conjTranspose_conjTranspose, conjTranspose_conjTranspose, hB]
+      simp only [Matrix.mul_assoc, Matrix.mul_smul, Matrix.smul_mul, smul_smul]
+      push_cast
+      ring_nf
+    have e3 : ((nv ^ 2 : ℝ) : ℂ) • (1 : Matrix (Fin N) (Fin N) ℂ) = ((nv ^ 2 : ℝ) : ℂ) • (VH * VHᴴ) := by rw [hV]
+    rw [e1, e2, e3]
+    simp only [add_mul, mul_add, Matrix.smul_mul, Matrix.mul_smul, Matrix.one_mul, Matrix.mul_one, smul_smul]
+    push_cast
+    module
+  have hentry := congrFun (congrFun (hexp.symm.trans hdiag) i) i
+  have hre := congrArg Complex.re hentry
+  simp only [Matrix.add_apply, Matrix.smul_apply, smul_eq_mul, Complex.add_re, Complex.re_ofReal_mul,
+    diagonal_apply_eq, Complex.ofReal_re, one_apply_eq, mul_one] at hre
+  have a := diag_gram_re_nonneg (B * VHᴴ) i
+  have b := diag_gram_re_nonneg (Eᴴ * VHᴴ) i
+  have hsq2 : nv ^ 2 ≤ S i ^ 2 := by
+    have : 0 ≤ 2 * nv * pe * (((Eᴴ * VHᴴ)ᴴ * (Eᴴ * VHᴴ)) i i).re := mul_nonneg (by positivity) b
+    linarith
+  exact (sq_le_sq₀ hnv (hS0 i)).mp hsq2
+
+end svd
+
+/-- sorted singular values: if none is below `σ²`, they decrease along the index and at least
+    `n` of them equal `σ²`, then the LAST `n` equal `σ²` -/
+theorem last_eq_of_sorted (S : Fin N → ℝ) (nv : ℝ) (hn : n ≤ N) (hsort : ∀ i j : Fin N, i ≤ j → S j ≤ S i)
+    (hlow : ∀ i, nv ≤ S i) (hcount : n ≤ (Finset.univ.filter (fun i => S i = nv)).card) (j : Fin n) :
+    S (revIdx hn j) = nv := by
+  by_contra hne
+  have hgt : nv < S (revIdx hn j) := lt_of_le_of_ne (hlow _) (Ne.symm hne)
+  have hsub : Finset.univ.filter (fun i => S i = nv) ⊆ Finset.Ioi (revIdx hn j) := by
+    intro i hi
+    simp only [Finset.mem_filter, Finset.mem_univ, true_and] at hi
+    rw [Finset.mem_Ioi]
+    by_contra hle
+    have := hsort i (revIdx hn j) (not_lt.mp hle)
+    linarith
+  have hc := Finset.card_le_card hsub
+  rw [Fin.card_Ioi] at hc
+  have : (revIdx hn j).val = N - 1 - j.val := rfl
+  have := j.isLt
+  omega
+
+/-- **the rank-counting step**: under the SVD contract (unitary factors, non-negative singular
+    values in decreasing order) and `n + rank E ≤ N`, the `n` smallest singular values of
+    `R = pe·E Eᴴ + σ²·1` are equal to the noise variance -/
+theorem least_singular_eq_noise (pe nv : ℝ) (hpe : 0 ≤ pe) (hnv : 0 ≤ nv) (E : Matrix (Fin N) (Fin r) ℂ)
+    (U VH : Matrix (Fin N) (Fin N) ℂ) (S : Fin N → ℝ) (hn : n ≤ N)
+    (hsvd : (pe : ℂ) • (E * Eᴴ) + (nv : ℂ) • (1 : Matrix (Fin N) (Fin N) ℂ) = U * diagonal (fun i => ((S i : ℝ) : ℂ)) * VH)
+    (hU : Uᴴ * U = 1) (hV : VH * VHᴴ = 1) (hS0 : ∀ i, 0 ≤ S i) (hsort : ∀ i j : Fin N, i ≤ j → S j ≤ S i)
+    (hrank : n + E.rank ≤ N) (j : Fin n) : S (revIdx hn j) = nv := by
+  classical
+  apply last_eq_of_sorted S nv hn hsort (noise_le_singular pe nv E U VH S hpe hnv hS0 hsvd hU hV)
+  have h1 := card_singular_ne_noise_le_rank pe nv E U VH S hnv hS0 hsvd hU hV
+  have h2 := Finset.card_filter_add_card_filter_not (s := (Finset.univ : Finset (Fin N))) (fun i => S i = nv)
+  simp only [Finset.card_univ, Fintype.card_fin] at h2
+  have h3 : (Finset.univ.filter (fun i => ¬ S i = nv)).card = (Finset.univ.filter (fun i => S i ≠ nv)).card := rfl
+  omega
+
 end rank
 end Pf
 end PyPhysim.BD
